@@ -3,7 +3,7 @@ from vlib import sesscheck
 
 ID = 'C11'
 LEVEL = 'exploration'
-RULE = 'Same program space as C09 with identity checks weighted up: for every object the program holds, Entity[pk], get(pk), get(unique=value), select(), select_by_sql() and an in-session pickle round trip must return the very same Python object, and get(unique=v) must return the current holder according to the reference store. Non-trivial = an identity check executed after a key change, delete or failed creation in the same session; distinct by program hash. A share of the programs (one third; one half for C11/C13/C15) comes from the hub family: every relationship starts at one entity, with cascading/unlinking relationships declared around a refusing one, populated, and then aimed operations (pending updates of children, pending removals on the hub collections, new children with explicit keys) precede the delete of the hub, so that deletes refused after part of their cascade are common.'
+RULE = 'Nested-key part (vlib/c11_nested.py): Shelf(PrimaryKey(room, no)) / Box(PrimaryKey(shelf, pos)) / Item(box) with generated rows; Box objects are reached by navigation, attribute-path and tuple queries, Box[room, no, pos], Box[shelf, pos], get() and selects in a drawn order and must be one Python object per key with the right key. Main part: Same program space as C09 with identity checks weighted up: for every object the program holds, Entity[pk], get(pk), get(unique=value), select(), select_by_sql() and an in-session pickle round trip must return the very same Python object, and get(unique=v) must return the current holder according to the reference store. Non-trivial = an identity check executed after a key change, delete or failed creation in the same session; distinct by program hash. A share of the programs (one third; one half for C11/C13/C15) comes from the hub family: every relationship starts at one entity, with cascading/unlinking relationships declared around a refusing one, populated, and then aimed operations (pending updates of children, pending removals on the hub collections, new children with explicit keys) precede the delete of the hub, so that deletes refused after part of their cascade are common.'
 ASSUMPTIONS = ['live SQLite (in-memory) with foreign keys enforced immediately',
                'reference store vlib/refstore.py written from the documented relationship/cascade/key semantics (DESIGN.md section 7a)',
                'table and column names are taken from the mapping metadata (names only)']
@@ -14,7 +14,31 @@ WEIGHTS = {'ident': 8, 'read': 6, 'rekey': 5}
 
 run = sesscheck.make_run(ID, PROPS, 1000, 8000, weights=WEIGHTS, hub_weights={'ident': 6, 'read': 3}, hub_share=(1, 2),
                          nontrivial=lambda program, stats: stats.get('op:ident', 0) > 0 and (stats.get('op:del', 0) + stats.get('op:set', 0) + stats.get('op:setm', 0)) > 0)
-replay = sesscheck.make_replay(ID, PROPS)
+_replay_session = sesscheck.make_replay(ID, PROPS)
+_run_session = run
+
+
+def run(ctx):
+    _run_session(ctx)
+    if ctx.violation is not None:
+        return
+    # nested-key part (vlib/c11_nested.py): keys that contain a reference to a composite-key entity, reached by several paths
+    from vlib import c11_nested
+
+    def tn(case):
+        msg = c11_nested.judge(case)
+        ctx.case(key=case, nontrivial=len(case['boxes']) >= 2 and len(set(case['paths'])) >= 2, classes=['nested_keys'],
+                 sample={'boxes': case['boxes'], 'paths': case['paths']} if len(case['boxes']) >= 2 else None)
+        if msg:
+            ctx.fail(case, msg)
+    ctx.run_test(tn, dict(case=c11_nested.cases()), max_examples=ctx.scale(150, 1500), name='C11_nested')
+
+
+def replay(case):
+    if case.get('kind') == 'nested':
+        from vlib import c11_nested
+        return c11_nested.judge(case)
+    return _replay_session(case)
 
 MANIFEST = {
     'text': 'Identity-map invariants (one Python object per primary key by every access path, unique-key lookups return the current holder) checked at generated points of generated histories including key changes, deletes and failed creations.',
